@@ -138,6 +138,13 @@ def run_cli(chk, model):
             mode = rng.random()
             roots = [] if mode < 0.3 else rng.sample(rootc, rng.randint(1, 3))
             runs.append((e, roots))
+        if h % 4 == 1:
+            # the lists are SETS: a path the previous run listed several times and this run lists fewer times (but at least once) is still
+            # expected and must stay; listed more times now than before changes nothing either
+            keep = [ab("r1/x"), ab("r2/w"), "rel/q"]
+            rng.shuffle(keep)
+            a, b2 = keep[0], keep[1]
+            runs = [([a, b2, a, a, ab("r1/sub/y")], []), ([b2, a, b2], []), ([a, a, b2, ab("out/v")], [ab("r1"), ab("r2")]), ([a, ab("out/v"), ab("out/v")], [])]
         # model prediction
         def fl(l): return "." if not l else ",".join(hx(x.encode()) for x in l)
         req = "stale_history NONE " + " ".join(fl(e) + "/" + fl(r) for (e, r) in runs)
